@@ -115,6 +115,57 @@ def history_rule(chk: Check, ctx: Any, rule: str) -> None:
                 problems.append(f"convert() altered the routine set it was given ({d[0]} became {d[1]})" if d else "convert() altered the routine set it was given")
             chk.decide(rule, f"history:decompile:{hname}", not problems, danchor, f"convert() of the same routine set after the history `{hname}`: " + "; ".join(problems),
                        "same text and source map as in a fresh process; input unchanged")
+        # histories over the *same objects*: a routine set that is decompiled more than once (by new decompiler objects, by the two
+        # decompilers in both orders) gives each time what a fresh process gives for it.  The sets carry multi-line and language strings at
+        # several depths (the writers keep layout state on the parameter objects) and one of them can only be written as fallback text.
+        def sets(P: Any) -> dict[str, tuple[list[Any], list[list[Any]], list[Any]]]:
+            o, inf, pa = P.op, P.info, P.param
+            V = lambda nm: pa("SsbOpParamConstant", nm)  # noqa: E731
+            cs = lambda t: pa("SsbOpParamConstString", t)  # noqa: E731
+            ls = lambda **k: pa("SsbOpParamLanguageString", dict(k))  # noqa: E731
+            structured = [[o(0, "hs_top", [cs("top\nlevel")]), o(1, "Branch", [V("$A"), 1, 3]), o(2, "Jump", [8]),
+                           o(3, "hs_in_if", [cs("one\n  two"), ls(english="e1\ne2", german="g")]), o(4, "Branch", [V("$B"), 2, 6]), o(5, "Jump", [8]),
+                           o(6, "hs_in_if_in_if", [cs("deep\n\ndeeper")]), o(7, "Jump", [8]), o(8, "hs_end", [ls(english="last\nline")]), o(9, "End", [])]]
+            fallback = [[o(0, "hf_first", [cs("first\nline")]), o(1, "Branch", [V("$A"), 1, 3]), o(2, "Jump", [5]),
+                         o(3, "hf_in_if", [cs("in\nif"), ls(english="x\ny")]), o(4, "Jump", [5]),
+                         o(5, "Switch", [V("$S")]), o(6, "Case", [2, 10]), o(7, "Case", [3, 9]), o(8, "Jump", [5]),
+                         o(9, "hf_body", [cs("case\nbody")]), o(10, "Jump", [6])]]
+            return {"structured-with-strings": ([inf("GENERIC")], structured, [None]), "fallback-with-strings": ([inf("GENERIC")], fallback, [None])}
+
+        def dec_objs(P: Any, st: tuple[list[Any], list[list[Any]], list[Any]], which: str) -> Any:
+            infos, ops, names = st
+            if which == "exps":
+                t, sm = P.decompile_exps(infos, ops, names)
+            else:
+                t, sm = P.decompile_ssbs(infos, ops, names)
+            return ("ok", t, _smap(P.I, sm))
+
+        for sname in ("structured-with-strings", "fallback-with-strings"):
+            refs = {}
+            for which in ("exps", "ssbs"):
+                Pf = fresh()
+                refs[which] = dec_objs(Pf, sets(Pf)[sname], which)
+            if sname.startswith("fallback") != refs["exps"][1].startswith("//?: is-ssb-script: true"):
+                chk.unknown(rule, f"history:decompile-same-objects:{sname}", danchor,
+                            "the sample set is " + ("not " if sname.startswith("fallback") else "") + "written as SsbScript fallback text any more; the history needs another set")
+                continue
+            for hname, steps in {"exps-twice": ["exps", "exps"], "ssbs-then-exps": ["ssbs", "exps"], "exps-then-ssbs": ["exps", "ssbs"],
+                                 "exps-ssbs-exps": ["exps", "ssbs", "exps"], "ssbs-twice": ["ssbs", "ssbs"]}.items():
+                n += 1
+                P = fresh()
+                st = sets(P)[sname]
+                problems = []
+                for i, which in enumerate(steps):
+                    got = dec_objs(P, st, which)
+                    if got != refs[which]:
+                        a, b = refs[which][1], got[1]
+                        k = next((j for j, (x, y) in enumerate(zip(a, b)) if x != y), min(len(a), len(b)))
+                        problems.append(f"call {i + 1} ({which}): " + (f"text differs from position {k}: {a[max(0, k - 30):k + 40]!r} became {b[max(0, k - 30):k + 40]!r}"
+                                                                  if a != b else "source map differs"))
+                        break
+                chk.decide(rule, f"history:decompile-same-objects:{sname}:{hname}", not problems, danchor,
+                           f"routine set `{sname}` decompiled repeatedly ({' then '.join(steps)}; same op and parameter objects, new decompiler objects): " + "; ".join(problems),
+                           "every call gives the text and source map a fresh process gives")
     except (Unsupported, AnalysisError) as e:
         chk.unknown(rule, "history:evaluation", anchor, f"abstract interpretation left the modelled subset: {e}")
     except PyExc as e:
